@@ -141,6 +141,17 @@ def check(case):
                         want = 1.0 if den == 0 else num / den
                         if got[1] != want:
                             return f"Jaccard index of derived filters (element counts {x.elements_added}, {y.elements_added}) is {got[1]!r}, positions give {num}/{den}"
+            # a filter combined with itself
+            if kind != "cbf":
+                sa0 = bytes(a.bloom[: a.bloom_length])
+                r = core.call(a.intersection, a)
+                if r[0] == "err" or r[1] is None or bytes(r[1].bloom[: a.bloom_length]) != sa0:
+                    return "intersection of a filter with itself is not the filter"
+                r = core.call(a.jaccard_index, a)
+                if r[0] == "err" or r[1] != 1.0:
+                    return f"Jaccard index of a filter with itself is {r[1]!r}"
+                if bytes(a.bloom[: a.bloom_length]) != sa0:
+                    return "combining a filter with itself modified it"
             for name in ("union", "intersection", "jaccard_index"):
                 if core.call(getattr(a, name), "foreign") != ("err", "!TypeError"):
                     return f"{name} with a foreign type did not raise TypeError"
